@@ -125,13 +125,26 @@ Theorem C10_non_to_multicast : forall r rq, is_multicast r = true -> select_mtyp
 Proof. exact non_to_multicast. Qed.
 Print Assumptions C10_non_to_multicast.
 
-(* 4. No-Response (RFC 7967): a suppressed response is not sent; a CON request still gets its empty ACK *)
+(* 4. No-Response (RFC 7967): a suppressed response is not sent; a CON request still gets its empty ACK — on every local address *)
 Theorem C10_no_response_suppressed_ack : forall s r a mon rq pmid h,
-  is_response (a_code a) = true -> aget pk_eqb (piggy s) (rpeer r, a_token a) = Some (pmid, h) -> no_response_of a = true -> rlocal r <> 0 ->
+  is_response (a_code a) = true -> aget pk_eqb (piggy s) (rpeer r, a_token a) = Some (pmid, h) -> no_response_of a = true ->
   exists s', send_message s r a mon rq = (s', [Send (as_response_address r) (empty_msg ACK pmid)], None) /\
              piggy s' = adel pk_eqb (piggy s) (rpeer r, a_token a) /\ atimers s' = cancel (atimers s) h.
 Proof. exact send_message_suppressed_ack. Qed.
 Print Assumptions C10_no_response_suppressed_ack.
+(* the address a reply goes to never carries the multicast address the request was received on, and stripping is idempotent *)
+Theorem C10_as_response_address : forall r,
+  is_multicast_locally (as_response_address r) = false /\ as_response_address (as_response_address r) = as_response_address r /\
+  rpeer (as_response_address r) = rpeer r.
+Proof. intros r. split; [apply as_response_address_not_multicast_locally|split; [apply as_response_address_idempotent|apply rpeer_ara]]. Qed.
+Print Assumptions C10_as_response_address.
+(* responses built from exceptions (4.04, 4.05, 5.00) are subject to the request's No-Response option like any other *)
+Theorem C10_error_response_inherits_no_response : forall s r req c pl,
+  send_response s r req c None pl =
+  (let '(s1, o, _) := send_message s (as_response_address r)
+      {| a_mtype := None; a_code := c; a_token := token req; a_nr := nr req; a_obs := None; a_payload := pl |} MonResp (Some (mtype req)) in (s1, o)).
+Proof. exact error_response_inherits_no_response. Qed.
+Print Assumptions C10_error_response_inherits_no_response.
 Theorem C10_no_response_suppressed_silent : forall s r a mon rq,
   is_response (a_code a) = true -> aget pk_eqb (piggy s) (rpeer r, a_token a) = None -> no_response_of a = true ->
   send_message s r a mon rq = (s, [], None).
@@ -177,22 +190,22 @@ Proof.
   exists [Recv (uni 0) (creq CON 7 [1] 0 None); Wait 10; Recv (uni 0) (creq CON 8 [1] 0 None); Wait 100000; Fire; Wait 150000].
   vm_compute. split; [reflexivity|]. split; [reflexivity|]. left. reflexivity.
 Qed.
-(* open finding: the same suppressed response for a CON request received on a multicast address raises TypeError inside send_message after
-   the opportunity was popped: no ACK is ever sent and a 5.00 goes out as a separate CON *)
-Theorem C10_no_response_received_on_multicast_refuted : forall s r a mon rq pmid h,
-  is_response (a_code a) = true -> aget pk_eqb (piggy s) (rpeer r, a_token a) = Some (pmid, h) -> no_response_of a = true -> rlocal r = 0 ->
-  exists s', send_message s r a mon rq = (s', [], Some TypeError) /\ piggy s' = adel pk_eqb (piggy s) (rpeer r, a_token a).
-Proof. exact send_message_suppressed_raises. Qed.
-Print Assumptions C10_no_response_received_on_multicast_refuted.
-Example C10_witness_no_response_multicast_refuted :
+(* fixed findings, now positive: a suppressed response for a CON request received on a multicast address yields the empty ACK (sent
+   from the stripped address), and a 4.04 built from an exception honours No-Response 26 *)
+Example C10_witness_no_response_received_on_multicast :
   let es := [Recv (mc 0) (creq CON 7 [1] 0 (Some 26)); Wait 5; Respond 0 69 None [5]; Wait 100000; Fire; Wait 100000] in
-  acks 0 7 (trace es) = 0%nat /\
-  firstn 1 (sends (trace es)) = [({| rpeer := 0; rlocal := 0 |}, {| mtype := CON; code := 160; mid := 0; token := [1]; nr := None; obs := None; path := -1; payload := [] |})].
+  acks 0 7 (trace es) = 1%nat /\ sends (trace es) = [({| rpeer := 0; rlocal := 0 |}, empty_msg ACK 7)].
 Proof. vm_compute. split; reflexivity. Qed.
-(* open finding: responses built from exceptions (4.04 here) do not inherit the request's No-Response option *)
-Example C10_witness_error_response_ignores_no_response_refuted :
-  sends (trace [Recv (uni 0) (creq CON 7 [1] 2 (Some 26))]) =
+Example C10_witness_error_response_honours_no_response :
+  sends (trace [Recv (uni 0) (creq CON 7 [1] 2 (Some 26))]) = [(uni 0, empty_msg ACK 7)] /\
+  sends (trace [Recv (uni 0) (creq NON 7 [1] 2 (Some 8))]) = [] /\
+  sends (trace [Recv (uni 0) (creq CON 7 [1] 2 (Some 2))]) =
     [(uni 0, {| mtype := ACK; code := 132; mid := 7; token := [1]; nr := None; obs := None; path := -1; payload := [] |})].
+Proof. vm_compute. repeat split. Qed.
+(* giving up on a CON while a multicast request is pending fails exactly the requests to that peer, without an exception in the loop *)
+Example C10_witness_give_up_with_multicast_request_pending :
+  let es := [Request 0 None false; Request 100 None false; Fire; Fire; Fire; Fire; Fire] in
+  filter (fun o => match o with Fail _ _ | LoopException _ => true | _ => false end) (trace es) = [Fail 0 ConRetransmitsExceeded].
 Proof. vm_compute. reflexivity. Qed.
 (* BInv is not vacuous: it holds initially and in a state with a backlogged CON and a pending retransmission *)
 Example C10_BInv_nonvacuous :
